@@ -54,6 +54,12 @@ func NewEnc() *Enc {
 	e.axioms = append(e.axioms,
 		"(forall ((s Str)) (! (>= (str_len s) 0) :pattern ((str_len s))))",
 		"(forall ((s Str)) (! (= (= (str_len s) 0) (= s "+e.strLit("")+")) :pattern ((str_len s))))",
+		"(forall ((a Str) (b Str)) (! (= (str_len (str_concat a b)) (+ (str_len a) (str_len b))) :pattern ((str_concat a b))))",
+	)
+	e.raw("str_nrunes", "(declare-fun str_nrunes (Str) Int)")
+	e.axioms = append(e.axioms,
+		"(forall ((a Str) (b Str)) (! (= (str_nrunes (str_concat a b)) (+ (str_nrunes a) (str_nrunes b))) :pattern ((str_concat a b))))",
+		"(forall ((a Str)) (! (and (<= 0 (str_nrunes a)) (<= (str_nrunes a) (str_len a))) :pattern ((str_nrunes a))))",
 	)
 	return e
 }
@@ -150,6 +156,7 @@ func (e *Enc) strFacts() []string {
 	}
 	for _, s := range e.strOrder {
 		out = append(out, fmt.Sprintf("(= (str_len %s) %d)", e.strLits[s], len(s)))
+		out = append(out, fmt.Sprintf("(= (str_nrunes %s) %d)", e.strLits[s], len([]rune(s))))
 	}
 	return out
 }
